@@ -61,14 +61,14 @@ SPEC = dict(
     id="C14", corr="Corr.C14", driver="h_c14", overlay=False, run=_run,
     targets=["Properties/C14.vo", "Corr/C14.vo", "Corr/C14tcp.vo"],
     extra_phases=[dict(name="tcp-wrap-placements", driver="h_tcp", corr="Corr.C14tcp", overlay=True, extra_overlay=tcp_overlay,
-                       args=lambda tier, seed: ["-seed", seed, "-wrap", "-mix", "c04,c01,c05", "-n", 60 if tier == "quick" else 1500, "-events", 40],
-                       search_args=lambda seed: ["-seed", seed, "-wrap", "-mix", "c04,c01", "-n", 120, "-events", 60],
+                       args=lambda tier, seed: ["-seed", seed, "-wrap", "-twin", "-mix", "c04,c01,c05", "-n", 60 if tier == "quick" else 1500, "-events", 40],
+                       search_args=lambda seed: ["-seed", seed, "-wrap", "-twin", "-mix", "c04,c01", "-n", 120, "-events", 60],
                        shard=4, timeout=2400, patterns={})],
     args=lambda tier, seed: ["-seed", seed, "-n", 6000 if tier == "quick" else 150000],
     search_args=lambda seed: ["-seed", seed, "-n", 40000],
     shard=8000,
     patterns={2: "C14-half", 3: "C14-empty"},
-    rule="phase 1: boundary lattice (11 bases x 16 distances) then seeded random operands (3/4 boundary values, 1/4 uniform) for LessThan/LessThanEq/InRange/InWindow/Overlap/Add/Size/UpdateForward of pkg/seqnum; a case is non-trivial when operands differ / sizes are non-zero (tag 1 = no wrap, 2 = range wraps through 0); distinct = distinct case lines; phase 2 (the property's last clause): lock-step TCP traces (h_tcp -wrap) in which every script places ISS/IRS or a window edge (receive window right edge, peer window right edge) just below 2^31 or 2^32 so that the boundary is crossed during the script; judged by trace_corr + the C01 data-integrity monitor + the C04 window monitor (Corr/C14tcp.v); non-trivial when data moved, tag 2 when a sequence number or window edge actually crossed a boundary",
+    rule="phase 1: boundary lattice (11 bases x 16 distances) then seeded random operands (3/4 boundary values, 1/4 uniform) for LessThan/LessThanEq/InRange/InWindow/Overlap/Add/Size/UpdateForward of pkg/seqnum; a case is non-trivial when operands differ / sizes are non-zero (tag 1 = no wrap, 2 = range wraps through 0); distinct = distinct case lines; phase 2 (the property's last clause): lock-step TCP traces (h_tcp -wrap) in which every script places ISS/IRS or a window edge (receive window right edge, peer window right edge) just below 2^31 or 2^32 so that the boundary is crossed during the script; every script is run a second time with the initial sequence numbers far from both boundaries and otherwise identical choices (the twin); judged by trace_corr on both + the C01 data-integrity, C04 window and C02 stall monitors on the wrap-adjacent trace + the model-independent twin monitor (every emitted frame and application result equal step by step once sequence numbers are expressed relative to ISS/IRS) (Corr/C14tcp.v); non-trivial when data moved, tag 2 when a sequence number or window edge actually crossed a boundary",
     trusted_base=[KERNEL, CORR_TB, "second tie: go/ast->Gallina translator harness/cmd/tr_seqnum (unverified, ~200 lines) regenerates the seqnum functions from the current source on every run; GenProofs/SeqnumGenP.v proves generated = model for all integers", "Print Assumptions: every C14 theorem is closed under the global context (no axioms)",
                   "modelled, not verified: pkg/seqnum/seqnum.go (hand-written Gallina model Model/Seqnum.v, tied by the differential run)"],
     assumptions=["Go uint32 arithmetic wraps modulo 2^32 and int32(x)<0 means x>=2^31 (written into the model)"],
